@@ -463,6 +463,13 @@ def gc4(F, R):
     stores = [e for e in evs if e.kind == "pers_write" and variant_of(e.val) == "Stored"]
     incs = [e for e in evs if e.kind == "cnt_write" and cnt_delta(e) == 1]
     R.floor("GC4", "persistence := Stored writes in put()", len(stores), 1, body.where())
+    # after put(v, d) the vertex holds an unread datum, whatever it held before: some Stored write happens on every
+    # returning path, under no condition
+    if stores and not any(e.uncond and not extra_guards(e.facts, lambda f: False, e.body) for e in stores):
+        e = stores[0]
+        R.bad("GC4", "GC4/Sodg::put/stored-write-conditional", e.where(),
+              "put() marks the vertex as holding an unread datum only on some paths: a datum stored again (after it was read) is "
+              "not counted as unread, and its group dies while it is unread", {"guards": show_facts(e.facts, e.body)})
     for e in [e for e in evs if e.kind == "cnt_write" and cnt_delta(e) == -1]:
         R.bad("GC4", "GC4/Sodg::put/decrement", e.where(), "put() decrements an unread counter")
     if not incs:
